@@ -10,7 +10,8 @@ for d in seeded/*/; do
   chk=$(python3 -c "import json;m=json.load(open('$d/meta.json'));print(m['detected_by'])")
   id=$(echo "$chk" | awk '{print $1}'); tier=$(echo "$chk" | awk '{print $2}'); tier=${tier:-quick}
   if ! git -C /repo diff --quiet; then echo "$name: /repo dirty, abort"; exit 2; fi
-  if ! git -C /repo apply "$PWD/$d/patch.diff" 2>/dev/null; then echo "$name: patch no longer applies (tree moved on)"; continue; fi
+  pf="$PWD/$d/patch.diff"; [ -f "$PWD/$d/patch.adapted.diff" ] && pf="$PWD/$d/patch.adapted.diff"   # the same change against the current tree
+  if ! git -C /repo apply "$pf" 2>/dev/null; then echo "$name: patch no longer applies (tree moved on)"; continue; fi
   ./check.sh "$id" "$tier" > /tmp/retest-$name.log 2>&1; code=$?
   git -C /repo checkout -- .
   v=$(grep -c '^VIOLATION' /tmp/retest-$name.log)
